@@ -201,7 +201,7 @@ def c07c(F, R):
         x = n
         okk = False
         why = ""
-        for _ in range(6):
+        for _ in range(10):
             par = pm.get(id(x))
             if par is None:
                 break
@@ -212,7 +212,12 @@ def c07c(F, R):
                 mt = pm.get(id(par))
                 if pat_variants(par["pat"]) == [("path", "core::option::Option::None")] and mt and mentions_call(mt["scrut"], "peek"):
                     okk, why = True, "None arm of lexer.peek()"
-                break
+                    break
+                if pat_variants(par["pat"]) == [("path", "core::option::Option::None")] and mt and mentions_call(mt["scrut"], "next") and ekey(peel(mt["scrut"]).get("recv") or {}).endswith(".lexer"):
+                    okk, why = True, "None arm of lexer.next()"
+                    break
+                x = par
+                continue
             x = par
         key = f"UnexpectedEOF|{root}"
         if okk:
@@ -258,10 +263,82 @@ def c07d(F, R):
         R.bad("loops|missing", f"expected >= 2 token-consuming loops in the decoder, found {len(loops)}")
 
 
+def eof_sites(F):
+    """construction sites of LexError::UnexpectedEOF in non-test parser code: [(fn path, node, guarded_by_nothing_consumed)]"""
+    out = []
+    for q, g in sorted(F.fns.items()):
+        if "hir" not in g or g.get("crate") != "riscv_analysis" and not q.startswith("riscv_analysis") and "riscv_analysis::parser" not in q:
+            continue
+        body = g["hir"]["value"]
+        hits = [n for n in walk(body, pats=False) if n.get("k") == "Path" and n.get("res") == LEXERR + "::UnexpectedEOF"]
+        if not hits:
+            continue
+        pm = parent_map(body)
+        for n in hits:
+            guarded = False
+            x = n
+            while id(x) in pm:
+                par = pm[id(x)]
+                if "pat" in par and "body" in par and "k" not in par:
+                    # a match arm: own guard `raw_token == default`, or an earlier arm of the same match with guard `raw_token != default`
+                    mt = pm.get(id(par))
+                    def g_ok(gd, want):
+                        if gd is None:
+                            return False
+                        ops = [b["op"] for b in walk(gd, pats=False) if b.get("k") == "Binary" and b["op"] in ("Eq", "Ne")]
+                        rt = any(f_.get("k") == "Field" and f_.get("name") == "raw_token" for f_ in walk(gd, pats=False))
+                        df = any(c_.get("k") == "Call" and short(callee_of(c_) or declared_callee(c_) or "") == "default" for c_ in walk(gd, pats=False))
+                        return rt and df and ops == [want]
+                    if g_ok(par.get("guard"), "Eq"):
+                        guarded = True
+                    if mt and mt.get("k") == "Match":
+                        for a in mt["arms"]:
+                            if a is par:
+                                break
+                            if g_ok(a.get("guard"), "Ne") and pat_variants(a["pat"]) == pat_variants(par["pat"]) and \
+                                    not any(y.get("k") == "Path" and y.get("res") == LEXERR + "::UnexpectedEOF" for y in walk(a["body"], pats=False)):
+                                guarded = True
+                if par.get("k") == "If":
+                    c = par["cond"]
+                    ops = [b["op"] for b in walk(c, pats=False) if b.get("k") == "Binary" and b["op"] in ("Eq", "Ne")]
+                    rt = any(f_.get("k") == "Field" and f_.get("name") == "raw_token" for f_ in walk(c, pats=False))
+                    in_then = any(y is x for y in walk(par["then"], pats=False)) if isinstance(par.get("then"), dict) else False
+                    if rt and ((ops == ["Eq"] and in_then) or (ops == ["Ne"] and not in_then)):
+                        guarded = True
+                x = par
+            out.append((q, n, guarded))
+    return out
+
+
+def get_any_eof_safe(F):
+    sites = [(q, n, g) for q, n, g in eof_sites(F) if short(q) == "get_any"]
+    return bool(sites) and all(g for _, _, g in sites)
+
+
+@rule("C07", "C07.j.eof-mid-statement-is-reported", floor=2)
+def c07j(F, R):
+    """`UnexpectedEOF` (which the parser treats as a silent end of file) is produced by a consuming read only when no token of the current statement has been read yet; a statement cut short by the end of the file gets a diagnostic like one cut short by a newline"""
+    sites = eof_sites(F)
+    if not sites:
+        raise Anchor("no construction of LexError::UnexpectedEOF found")
+    for q, n, guarded in sites:
+        name = short(q)
+        f = F.fn(q)
+        consuming = any(m.get("k") == "MethodCall" and m["name"] == "next" and ekey(m["recv"]).endswith(".lexer") for m in walk(f["hir"]["value"], pats=False))
+        if not consuming:
+            R.ok(f"{name}|peek", detail=f"{name} only looks ahead (its use with `?` is decided by C07.g)", where=loc(n))
+        elif guarded:
+            R.ok(f"{name}|consuming", detail=f"{name}: UnexpectedEOF only while `raw_token` is still the default (nothing of the statement consumed)", where=loc(n))
+        else:
+            R.bad(f"{name}|consuming", f"{name} answers UnexpectedEOF for every read at the end of the input, also in the middle of a statement: `addi t0, t0` as the last bytes of a file (no trailing newline) is dropped without a node or an error", loc(n))
+
+
 @rule("C07", "C07.g.eof-in-optional-lookahead", floor=20)
 def c07g(F, R):
     """a successful decode path never depends on a look-ahead read through `?` whose token it then ignores: at end of file that `?` aborts the decode and the complete instruction is dropped"""
     from .decode import eof_optional
+    from . import decode as _dec
+    _dec.GET_ANY_EOF_SAFE = get_any_eof_safe(F)
     ctors = node_ctor_table(F)
     p, tm, pm = try_from_matches(F)
     for k, arm in arm_table(tm):
@@ -1124,3 +1201,58 @@ def c18e(F, R):
                 R.bad(f"{name}|{k}", msg, where)
         else:
             R.ok(name, detail=f"{name}: {touched} uses of {root}, all element- and order-preserving; no early exit")
+
+
+def _unicode_summary(F):
+    """reviewed summary of Lexer::unicode_code, valid only while its shape holds: the four characters at offsets 2..5 are
+    validated as hexadecimal digits (`to_digit(16)`, `None => return None`) before `skip_char(4)` steps over offsets 0..3."""
+    from .lexcursor import St
+    f = F.fn(LEXER + "::unicode_code")
+    body = f["hir"]["value"]
+    peeks = sorted(lit_value(m["args"][0]) for m in walk(body, pats=False) if m.get("k") == "MethodCall" and m["name"] == "peek" and m["args"])
+    digs = [m for m in walk(body, pats=False) if m.get("k") == "MethodCall" and m["name"] == "to_digit" and m["args"] and lit_value(m["args"][0]) == 16]
+    skips = [lit_value(m["args"][0]) for m in walk(body, pats=False) if m.get("k") == "MethodCall" and m["name"] == "skip_char"]
+    consumes = [m for m in walk(body, pats=False) if m.get("k") == "MethodCall" and m["name"] == "consume_char"]
+    none_ret = any(n.get("k") == "Ret" and short(peel(n.get("e") or {}).get("res") or "") == "None" for n in walk(body, pats=False))
+    if peeks != [2, 3, 4, 5] or len(digs) != 1 or skips != [4] or consumes or not none_ret:
+        return None
+
+    def summary(cur, e, st):
+        # requires offsets 0 and 1 to be known (the backslash and the `u`)
+        outs = [("normal", St(know=st.know, consts=st.consts), ("tag", "None"))]
+        s = St(know=st.know, consts=st.consts)
+        for o in (2, 3, 4, 5):
+            s.know[o] = "N"
+        for _ in range(4):
+            if s.know.get(0) is None:
+                cur.viol.setdefault("unicode_code|skip_char(4)", ("skip_char(4) in unicode_code steps over a character that was not validated", f["sp"]))
+            s = s.shift()
+        outs.append(("normal", s, ("tag", "Some")))
+        return outs
+    return summary
+
+
+@rule("C07", "C07.i.newline-consumed-only-as-a-token", floor=20)
+def c07i(F, R):
+    """abstract interpretation of the lexer's cursor: every `consume_char()` reachable from `Lexer::next` steps over a character already established not to be a newline (or, in the Newline arm, known to be one); a token or an error that swallows the line break glues the following line to the current one"""
+    from .lexcursor import Cursor, Unextractable
+    summ = _unicode_summary(F)
+    if summ is None:
+        R.bad("unicode_code|summary", "UNEXTRACTABLE: Lexer::unicode_code no longer has the reviewed shape (peek 2..5, to_digit(16), skip_char(4))", F.fn(LEXER + "::unicode_code")["sp"])
+        return
+    nxt = [F.method(LEXER, "next", trait="Iterator")]
+    cur = Cursor(F, summaries={"unicode_code": summ})
+    try:
+        outs = cur.analyse(nxt[0])
+    except Unextractable as ex:
+        R.bad("unextractable", f"UNEXTRACTABLE: the lexer uses a construct the cursor analysis does not model: {ex}", F.fn(nxt[0])["sp"])
+        return
+    for key, where in sorted(cur.sites.items()):
+        if key in cur.viol:
+            R.bad(key, cur.viol[key][0], cur.viol[key][1])
+        else:
+            R.ok(key, detail="the character stepped over is established (pattern, comparison or class predicate) on every path", where=where)
+    for key, (msg, where) in cur.viol.items():
+        if key not in cur.sites:
+            R.bad(key, msg, where)
+    R.note(f"cursor analysis: {len(cur.sites)} consume sites (with calling context), {len(outs)} exit states of next(); reviewed summary used for: {sorted(cur.used_summaries)}")
